@@ -69,6 +69,9 @@ fn case_strategy(tier: Tier, ex: Excl) -> BoxedStrategy<Case> {
                 "QUERY ev WHERE i >= 0",
                 "QUERY ev WHERE i < -5000000000000000000000",
                 "QUERY ev LIMIT 2",
+                "QUERY ev LIMIT 3 OFFSET 1",
+                "QUERY ev LIMIT 100 OFFSET 2",
+                "QUERY ev RETURN [k, i] LIMIT 2 OFFSET 2",
                 "QUERY ev LIMIT 0",
                 "QUERY ev FOR c0",
                 "QUERY ev FOR c0 RETURN [s]",
